@@ -209,7 +209,7 @@ def make_stream(ctx, kind, data):
             if os.path.exists(path):
                 os.remove(path)
         return s, swap, cleanup
-    if kind == "pipe":
+    if kind == "pipe" and len(data) <= 60000:      # (a pipe buffer is 64 kB; larger inputs go to the wrapper kind)
         r, w = os.pipe()
         os.write(w, data)
         os.close(w)
